@@ -63,7 +63,10 @@ pub mod lab {
     pub const CLONE_FROM: u32 = 46;
     pub const CLONE_FROM_SAME: u32 = 47;
     pub const DEAD_CLONE_FROM: u32 = 48;
-    pub const NAMES: [&str; 49] = [
+    pub const DEFAULT_PANIC: u32 = 49;
+    pub const CLONE_REENTRANT: u32 = 50;
+    pub const DEFAULT_CTOR: u32 = 51;
+    pub const NAMES: [&str; 52] = [
         "group>=2_collected",
         "group>=3_collected",
         "zero_count_death_with_records",
@@ -113,6 +116,9 @@ pub mod lab {
         "clone_from",
         "clone_from_same_object",
         "clone_from_of_handle_to_destroyed_object",
+        "default_default_panicked_inside_rc_default",
+        "payload_clone_reentered_the_api_in_make_mut",
+        "constructed_by_rc_default",
     ];
 }
 
@@ -157,6 +163,12 @@ pub struct Cfg {
     /// 0: Clone works; 1: `Node::clone` panics at once; 2: it panics after it
     /// has cloned the stored handles
     pub clone_panics: u8,
+    /// the payload's Clone (called by make_mut) runs the value's action script
+    /// (re-entrant API use from inside make_mut)
+    pub clone_reentrant: bool,
+    /// Rc::default() constructs some objects; 2: the first attempt panics
+    /// inside Default::default()
+    pub default_ctor: u8,
 }
 
 pub struct World {
@@ -336,6 +348,25 @@ impl Node {
     }
 }
 
+thread_local! {
+    /// arguments of the next `Node::default()` (id, destructor script, panic?)
+    pub static NODE_STAGE: RefCell<Option<(Oid, Vec<DAct>, bool)>> = const { RefCell::new(None) };
+}
+
+impl Default for Node {
+    /// Called by `Rc::<Node>::default()`: user code running inside a constructor.
+    fn default() -> Node {
+        let _t = track_off();
+        let _p = PhaseGuard(set_phase(Phase::Harness));
+        let (id, d, panic) = NODE_STAGE.with(|s| s.borrow_mut().take()).expect("Node::default without staged arguments");
+        if panic {
+            label(lab::DEFAULT_PANIC);
+            std::panic::panic_any(crate::interp::Injected);
+        }
+        Node::new(id, d)
+    }
+}
+
 impl Clone for Node {
     /// Only called by `Rc::make_mut` when the value is shared: the clone is a
     /// new object that owns fresh (unrecorded) handle instances.
@@ -348,6 +379,9 @@ impl Clone for Node {
             wd.panic_fired.set(true);
             label(lab::CLONE_PANIC);
             std::panic::panic_any(crate::interp::Injected);
+        }
+        if wd.cfg.clone_reentrant && wd.makemut.get().is_some() && wd.dact_depth.get() == 0 {
+            crate::interp::run_clone_actions(self);
         }
         let new_id = wd.model.borrow_mut().new_obj(0, 0, !self.dscript.is_empty());
         let n = Node::new(new_id, self.dscript.clone());
